@@ -45,7 +45,15 @@ def item_text(it, n, cls):
         return "[%s]: /d%d\n" % (label, n)
     if it["kind"] == "title":
         return "[%s]: /d%d \"T%d\"\n" % (label, n, n)
-    return "[%s]:\n/d%d\n'T%d'\n" % (label, n, n)
+    if it["kind"] == "nextline":
+        return "[%s]:\n/d%d\n'T%d'\n" % (label, n, n)
+    if it["kind"] == "multiline":
+        return "[%s]: /d%d \"T%d\nU\"\n" % (label, n, n)
+    if it["kind"] == "bsline":
+        return "[%s]: /d%d \"T%d\\\nU\"\n" % (label, n, n)
+    if it["kind"] == "lfref":
+        return "[%s]: /d%d \"T%d&#10;U\"\n" % (label, n, n)
+    raise C.MachineryError("unknown definition layout " + it["kind"])
 
 
 def build(script, cls):
